@@ -42,12 +42,12 @@ type c09P1 struct {
 	S string `vgirpc:"s,default=x"`
 }
 type c09P2 struct {
-	F *float64          `vgirpc:"f"`
-	L []string          `vgirpc:"l"`
-	M map[string]int64  `vgirpc:"m"`
-	E string            `vgirpc:"e,enum"`
-	B []byte            `vgirpc:"b"`
-	I int32             `vgirpc:"i,int32"`
+	F *float64         `vgirpc:"f"`
+	L []string         `vgirpc:"l"`
+	M map[string]int64 `vgirpc:"m"`
+	E string           `vgirpc:"e,enum"`
+	B []byte           `vgirpc:"b"`
+	I int32            `vgirpc:"i,int32"`
 }
 type c09P3 struct {
 	X int64 `vgirpc:"x"`
@@ -175,11 +175,11 @@ func genC09(t *rapid.T) c09Case {
 }
 
 type c09Row struct {
-	Name, Type         string
-	HasReturn, HasHdr  bool
-	IsExch             any
-	Params, Res, Hdr   []byte
-	HdrNull            bool
+	Name, Type        string
+	HasReturn, HasHdr bool
+	IsExch            any
+	Params, Res, Hdr  []byte
+	HdrNull           bool
 }
 
 func refHash(protocolName string, rows []c09Row) string {
